@@ -107,7 +107,7 @@ def search_xrt():
     if tool is None:
         return None
     out = run_selfcheck(tool, XRT_INPUTS)
-    m = re.search(r'INCONSISTENT kind=(\S+) input=(".*?")\n((?:  .*\n?)+)', out)
+    m = re.search(r'INCONSISTENT kind=(\S+) input=("(?:[^"\\]|\\.)*")\n((?:  .*\n?)+)', out)
     if not m:
         return None
     return dict(tool='replay/src/bin/xrt.rs --selfcheck', kind=m.group(1), input=m.group(2), split_at=None,
@@ -125,7 +125,7 @@ def search(prop, unit, rec):
         return None
     inputs = corpus(HTML_CONTEXTS if unit == 'u_htok' else XML_CONTEXTS)
     out = run_selfcheck(tool, inputs)
-    m = re.search(r'INCONSISTENT kind=(\S+) input=(".*?")( split_at=(\d+))?.*?\n((?:  .*\n?)+)', out)
+    m = re.search(r'INCONSISTENT kind=(\S+) input=("(?:[^"\\]|\\.)*")( split_at=(\d+))?.*?\n((?:  .*\n?)+)', out)
     if not m:
         return None
     return dict(tool='replay/src/bin/%s.rs --selfcheck' % bin_name, kind=m.group(1), input=m.group(2),
@@ -171,13 +171,25 @@ XML_CONTEXTS = [
 
 
 def rerun(conc):
-    bin_name = 'xtok' if 'xtok' in conc.get('tool', '') else ('xrt' if 'xrt' in conc.get('tool', '') else 'htok')
+    m = re.search(r'replay/src/bin/(\w+)\.rs', conc.get('tool', ''))
+    bin_name = m.group(1) if m and m.group(1) in ('xtok', 'xrt', 'htok', 'hser', 'htrace', 'henc') else 'htok'
     tool, err = build_tool(bin_name)
     if tool is None:
         print('cannot build the replay tool:', err)
         return 2
     inp = conc['input']
     body = inp[1:-1] if inp.startswith('"') else inp
-    out = run_selfcheck(tool, [body.replace('\\\\', '\\')])
+    # the tools print inputs with Rust's {:?}; their --selfcheck reader knows \n \r \t \0 \\ \u{..} but not \" and \'
+    line = re.sub(r'\\(["\'])', r'\1', body)
+    if bin_name == 'henc':
+        # henc's --selfcheck lines are `labels<TAB>document`: look the document up in the registered cases
+        import kanirun
+        doc = re.sub(r'\\(["\'])', r'\1', body)
+        hit = [c for c in kanirun.HENC_CASES if c[1] == doc]
+        if not hit:
+            print('the document of this replay file is not one of the registered cases:', doc)
+            return 2
+        line = '%s\t%s' % hit[0]
+    out = run_selfcheck(tool, [line])
     print(out)
     return 1 if 'INCONSISTENT' in out else 0
